@@ -769,19 +769,32 @@ AMapErrRet ==
 (* or the pending error left by the failure.                               *)
 
 MemoHas(k) == k \in DOMAIN memo
+(* The real key is (position, ADDRESS of the wrapped parser).  For `p.memoized().memoized()` the *)
+(* inner Memoized is the first field of the outer one, so both compute the same address: the    *)
+(* inner lookup finds the outer's in-progress marker and fails as if it were left recursion:    *)
+(* deviation site "memo_nested" (C11).  The correct branch uses the node identity.              *)
+DirectlyNestedMemo == Len(stack) >= 2 /\ Op(stack[Len(stack) - 1].g) = "memo" /\ stack[Len(stack) - 1].pc = 1
+MemoLookup(f) ==
+  LET k == <<cur, f.path>>
+      sp == SpanOf(cur, cur)
+  IN IF MemoHas(k)
+     THEN /\ IF memo[k].some
+             THEN RetX(ErrRet, cur, sec, insp, AddAltErr(Ety, alt, memo[k].pos, memo[k].err))
+             ELSE RetX(ErrRet, cur, sec, insp, AddAlt(Ety, alt, cur, {}, "", sp[1], sp[2]))
+          /\ UNCHANGED <<cid, memo, obs, result>>
+     ELSE /\ CallX([f EXCEPT !.pc = 1], f.g[2], f.mode, f.ctx, f.env, Append(f.path, 1), "go", 0, cur, sec, insp, alt)
+          /\ memo' = (k :> NoAlt) @@ memo
+          /\ UNCHANGED <<cid, obs, result>>
 AMemoStart ==
   /\ Entering({"memo"})
   /\ LET f == Top
-         k == <<cur, f.path>>
          sp == SpanOf(cur, cur)
-     IN IF MemoHas(k)
-        THEN /\ IF memo[k].some
-                THEN RetX(ErrRet, cur, sec, insp, AddAltErr(Ety, alt, memo[k].pos, memo[k].err))
-                ELSE RetX(ErrRet, cur, sec, insp, AddAlt(Ety, alt, cur, {}, "", sp[1], sp[2]))
-             /\ UNCHANGED <<cid, memo, kf, obs, result>>
-        ELSE /\ CallX([f EXCEPT !.pc = 1], f.g[2], f.mode, f.ctx, f.env, Append(f.path, 1), "go", 0, cur, sec, insp, alt)
-             /\ memo' = (k :> NoAlt) @@ memo
-             /\ UNCHANGED <<cid, kf, obs, result>>
+     IN IF DirectlyNestedMemo
+        THEN KfSplit("memo_nested",
+                     MemoLookup(f),
+                     /\ RetX(ErrRet, cur, sec, insp, AddAlt(Ety, alt, cur, {}, "", sp[1], sp[2]))
+                     /\ UNCHANGED <<cid, memo, obs, result>>)
+        ELSE MemoLookup(f) /\ UNCHANGED kf
 
 AMemoRet ==
   /\ Resuming({"memo"}, 1)
